@@ -20,6 +20,7 @@ def body(ctx):
     release_all(ctx, prog, viol)
     handles_fail_fast(ctx, prog, viol)
     failure_detection(ctx, prog)
+    io_thread_never_blocks(ctx, prog)
     if viol:
         ctx.report('connection-death', f"{len(viol)} obligations violated, e.g. {str(viol[0])[:250]}; confirmed by scripted-broker scenarios over loopback TCP", {'solver_counterexamples': [str(v)[:300] for v in viol[:6]]},
                    E2E, profiles=('dev',), hang_is_violation=True)
@@ -28,6 +29,69 @@ def body(ctx):
         ctx.extra['native_broker_scenarios'] = {k: v.get('tail', '')[-300:] for k, v in rp['profiles'].items()}
         if rp['reproduced'] or any(v.get('timeout') for v in rp['profiles'].values()):
             ctx.inconclusive.append('native broker scenarios disagree with a passing solver verdict: ' + str(rp)[:400])
+
+
+def io_thread_never_blocks(ctx, prog):
+    """the I/O thread never waits for a client: a frame for a channel whose reply queue is full (its owner is not inside a call) is
+    an error that ends the connection, not a blocking send that would leave every other caller hanging"""
+    import mirsym.world as _w
+    ex = io_executor(ctx, prog)
+    cap = reply_capacity(ctx, prog)
+    bad = []
+    n = 0
+    for nc in (0, 1):
+        fs, a, b, infoA, res = explore_step(ctx, ex, prog, shapeA='None', consumersA=nc, prefillA=cap)   # channel 0's own reply queue only ever receives the one CloseOk that ends the loop, so it is never full
+        for (s, w, rv) in res:
+            n += 1
+            blocked = isinstance(rv, Panic) and rv.kind == 'block'
+            m = ctx.decide(f"c05.never-blocks[{nc}]#{n}", s.pc, z3.BoolVal(not blocked), group='no frame makes the I/O thread block on a client queue (reply queues full, every frame): it either delivers, discards or fails',
+                           sample={'result': ('BLOCKS' if blocked else err_name(prog, rv))})
+            if m is not None:
+                bad.append(fs.describe(m))
+    if bad:
+        ctx.report('io-thread-blocks', f"a frame makes the I/O thread block on a full client queue: {str(bad[0])[:300]}", {'frames': [str(x)[:200] for x in bad[:4]]},
+                   BLOCK_TEST.replace('REPLY_CAP', str(cap)), inject_into='src/io_loop/mod.rs', profiles=('dev',), hang_is_violation=True, panic_is_violation=True)
+
+
+BLOCK_TEST = r"""
+use super::*;
+use super::connection_state::ConnectionState;
+use amq_protocol::frame::AMQPFrame;
+use amq_protocol::protocol::{AMQPClass, basic, channel, connection};
+#[test]
+fn verif_replay_never_blocks() {
+    let frames: Vec<(&'static str, AMQPFrame)> = vec![
+        ("qos-ok", AMQPFrame::Method(1, AMQPClass::Basic(basic::AMQPMethod::QosOk(basic::QosOk {})))),
+        ("cancel-ok", AMQPFrame::Method(1, AMQPClass::Basic(basic::AMQPMethod::CancelOk(basic::CancelOk { consumer_tag: "none".into() })))),
+        ("channel-close", AMQPFrame::Method(1, AMQPClass::Channel(channel::AMQPMethod::Close(channel::Close { reply_code: 404, reply_text: "gone".into(), class_id: 0, method_id: 0 })))),
+        ("channel-close-ok", AMQPFrame::Method(1, AMQPClass::Channel(channel::AMQPMethod::CloseOk(channel::CloseOk {})))),
+        ("connection-close", AMQPFrame::Method(0, AMQPClass::Connection(connection::AMQPMethod::Close(connection::Close { reply_code: 320, reply_text: "bye".into(), class_id: 0, method_id: 0 })))),
+    ];
+    let mut bad: Vec<String> = Vec::new();
+    for (name, frame) in frames {
+        let (done_tx, done_rx) = std::sync::mpsc::channel();
+        std::thread::spawn(move || {
+            let mut inner = Inner::new(HeartbeatTimers::default(), 16);
+            inner.chan_slots.set_channel_max(10);
+            let (ch0_slot, h0) = Channel0Slot::new(16);
+            let (slot, handle) = ChannelSlot::new(16, 1);
+            // the owner of channel 1 is not inside a call: fill its reply queue
+            let mut filled = 0;
+            while slot.tx.try_send(Ok(ChannelMessage::Method(AMQPClass::Basic(basic::AMQPMethod::QosOk(basic::QosOk {}))))).is_ok() { filled += 1; if filled > 64 { break; } }
+            inner.chan_slots.insert(Some(1), |_| Ok((slot, ()))).unwrap();
+            let mut state = ConnectionState::Steady(ch0_slot);
+            let r = state.process(&mut inner, frame);
+            let _ = done_tx.send((filled, r.is_ok()));
+            std::mem::forget(handle); std::mem::forget(h0);
+        });
+        match done_rx.recv_timeout(std::time::Duration::from_secs(4)) {
+            Ok(_) => (),
+            Err(_) => bad.push(format!("{}:BLOCKED", name)),
+        }
+    }
+    if bad.is_empty() { println!("VERIF-REPLAY-OK"); } else { println!("VERIF-REPLAY-VIOLATION io-thread-blocks {}", bad.join(",")); }
+}
+"""
 
 
 def failure_detection(ctx, prog):
@@ -44,6 +108,8 @@ def failure_detection(ctx, prog):
     c08.eof_before_closeok(ctx, prog)
     v17 = []
     c17.process_timers(ctx, prog, v17)
+    c17.several_expiries(ctx, prog, v17)
+    c17.timer_event_in_every_state(ctx, prog, v17)   # a silent server is detected in every state, also while a close is being flushed
     c17.activity(ctx, prog, v17)     # only inbound bytes count as a sign of life from the server (the client's own writes do not)
     for what in sorted({x[0] for x in v17}):
         test, exp_desc = c17.hb_replay(what)
